@@ -24,6 +24,7 @@ class Program:
     """MIR functions + layout tables + models, shared by every path."""
 
     def __init__(self, funcs, layout, models, crate_prefix=""):
+        self.overloads = funcs.pop("#overloads", {})
         self.funcs = funcs
         self.layout = layout
         self.models = models          # list of (compiled regex, fn)
@@ -43,7 +44,10 @@ class Program:
                 key = (m.group(2), int(m.group(3)), int(m.group(4)))
                 imp = layout.impls.get(key)
                 if imp:
-                    self.methods.setdefault((imp["self_ty"], imp["trait"], m.group(5)), name)
+                    tr = imp["trait"]
+                    if tr == "Error":   # thiserror derive: Display, From and Error impls share the derive span
+                        tr = {"fmt": "Display", "from": "From", "source": "Error"}.get(m.group(5), tr)
+                    self.methods.setdefault((imp["self_ty"], tr, m.group(5)), name)
         self.trait_defaults = {}
         for name in funcs:
             parts = name.split("::")
@@ -684,6 +688,13 @@ class Interp:
             trl = tr.split("::")[-1]
             tyl = re.sub(r"^(&(mut )?|dyn |\*const |\*mut )+", "", ty).split("::")[-1]
             k = (tyl, trl, meth)
+            if k in prog.methods and prog.methods[k] in prog.overloads:
+                src = re.match(r"^<.* as [\w:]+<(.*)>>::\w+$", callee)
+                want = src.group(1).strip() if src else None
+                for pty, fname in prog.overloads[prog.methods[k]]:
+                    if want is not None and pty.strip() == want:
+                        return ("mir", fname)
+                return None
             if k in prog.methods:
                 nref = len(re.match(r"^((?:&(?:mut )?)*)", ty).group(1).replace("mut ", ""))
                 if nref and trl in ("PartialEq", "PartialOrd", "Ord", "Eq"):
